@@ -13,16 +13,22 @@ open StarsimModel.TimePar StarsimModel.Hazard
 
 /-! ### Obligations on the regenerated expressions -/
 
-/-- plain-number rates of births, deaths and fertility are scaled by the module's step length in YEARS -/
-theorem C16_number_factors_are_year_ratio :
-    Gen.birthsNumberFactor = Gen.yearRatioExpr ∧ Gen.deathsNumberFactor = Gen.yearRatioExpr ∧
-    Gen.fertilityNumberFactor = Gen.yearRatioExpr := by decide
+/-- plain-number rates of births, deaths and fertility are scaled by the module's step length in YEARS
+    (whichever of the equivalent source spellings is used: the `time_ratio(...)` call or `dt_year`) -/
+theorem C16_number_factors_are_year_ratio (unit : UnitT) (dt : Option Rat) :
+    factorOf Gen.birthsNumberFactor unit dt = timeRatio unit dt (some "year") (some 1) ∧
+    factorOf Gen.deathsNumberFactor unit dt = timeRatio unit dt (some "year") (some 1) ∧
+    factorOf Gen.fertilityNumberFactor unit dt = timeRatio unit dt (some "year") (some 1) := by
+  refine ⟨?_, ?_, ?_⟩ <;> (unfold factorOf; rw [if_neg (by decide), if_neg (by decide), if_pos (by decide)])
 
 /-- a TimePar birth rate is not scaled again (the TimePar already converts to the module's step) -/
-theorem C16_births_timepar_factor_is_one : Gen.birthsTimeParFactor = "1.0" := by decide
+theorem C16_births_timepar_factor_is_one (unit : UnitT) (dt : Option Rat) : factorOf Gen.birthsTimeParFactor unit dt = .ok 1 := by
+  unfold factorOf; rw [if_pos (by decide)]
 
 /-- ageing adds the SIM step length in years -/
-theorem C16_ageing_increment_is_dt_year : Gen.ageingIncrement = "sim.t.dt_year" := by decide
+theorem C16_ageing_increment_is_dt_year (unit : UnitT) (dt : Option Rat) :
+    ageIncrement unit dt = timeRatio unit dt (some "year") (some 1) := by
+  unfold ageIncrement factorOf; rw [if_neg (by decide), if_neg (by decide), if_pos (by decide)]
 
 /-- the TimePar death-rate branch is one of the two known variants: as is (`self.t.dt`, the defect) or repaired (`1.0`) -/
 theorem C16_deaths_timepar_factor_variant : Gen.deathsTimeParFactor = "self.t.dt" ∨ Gen.deathsTimeParFactor = "1.0" := by decide
@@ -32,12 +38,9 @@ theorem C16_delivery_dt_variant : Gen.deliveryDt = "sim.pars.dt" ∨ Gen.deliver
 
 /-! ### Plain-number rates: probability = rate · units · rel · (step length in years) -/
 
-theorem factorOf_year_ratio {u : String} {lu ly d : Rat} (hlu : unitLen u = some lu) (hly : unitLen "year" = some ly) :
-    factorOf Gen.yearRatioExpr (some u) (some d) = .ok (d * lu / ly) := by
-  have h : factorOf Gen.yearRatioExpr (some u) (some d) = timeRatio (some u) (some d) (some "year") (some 1) := by
-    unfold factorOf
-    rw [if_neg (by decide), if_neg (by decide), if_pos (Or.inl rfl)]
-  rw [h, timeRatio_known hlu hly one_ne_zero]
+theorem year_ratio_known {u : String} {lu ly d : Rat} (hlu : unitLen u = some lu) (hly : unitLen "year" = some ly) :
+    timeRatio (some u) (some d) (some "year") (some 1) = .ok (d * lu / ly) := by
+  rw [timeRatio_known hlu hly one_ne_zero]
   congr 1
   have := ne_of_gt (unitLen_pos hly)
   field_simp
@@ -46,13 +49,13 @@ theorem factorOf_year_ratio {u : String} {lu ly d : Rat} (hlu : unitLen u = some
 theorem C16_births_linear {u : String} {lu ly d : Rat} (hlu : unitLen u = some lu) (hly : unitLen "year" = some ly) (r ru rel : Rat) :
     birthsNumber (some u) (some d) r ru rel = .ok (clip01 (r * ru * rel * (d * lu / ly))) := by
   unfold birthsNumber numberProb
-  rw [C16_number_factors_are_year_ratio.1, factorOf_year_ratio hlu hly]
+  rw [(C16_number_factors_are_year_ratio _ _).1, year_ratio_known hlu hly]
 
 /-- **Deaths, number form** -/
 theorem C16_deaths_number_linear {u : String} {lu ly d : Rat} (hlu : unitLen u = some lu) (hly : unitLen "year" = some ly) (r ru rel : Rat) :
     deathsNumber (some u) (some d) r ru rel = .ok (clip01 (r * ru * rel * (d * lu / ly))) := by
   unfold deathsNumber numberProb
-  rw [C16_number_factors_are_year_ratio.2.1, factorOf_year_ratio hlu hly]
+  rw [(C16_number_factors_are_year_ratio _ _).2.1, year_ratio_known hlu hly]
 
 /-- **Fertility, number form**: eligible women get rate·(units·rel)·dt_year, the others 0 -/
 theorem C16_fertility_linear {u : String} {lu ly d : Rat} (hlu : unitLen u = some lu) (hly : unitLen "year" = some ly)
@@ -60,7 +63,7 @@ theorem C16_fertility_linear {u : String} {lu ly d : Rat} (hlu : unitLen u = som
     fertilityNumber (some u) (some d) r ru rel age mn mx fec =
       .ok (if fec = true ∧ mn ≤ age ∧ age ≤ mx then clip01 (r * (ru * rel) * (d * lu / ly)) else 0) := by
   unfold fertilityNumber
-  rw [C16_number_factors_are_year_ratio.2.2, factorOf_year_ratio hlu hly]
+  rw [(C16_number_factors_are_year_ratio _ _).2.2, year_ratio_known hlu hly]
   simp only [Except.ok.injEq]
   by_cases hf : fec = true <;> by_cases h1 : age < mn <;> by_cases h2 : mx < age <;>
     simp [hf, h1, h2, not_le.mpr, not_lt.mp]
@@ -77,9 +80,7 @@ theorem C16_births_timepar {t : TP Rat} {u pu : String} {lu lpu s p r : Rat} (h 
     (unit : UnitT) (dt : Option Rat) (ru rel : Rat) :
     birthsTimePar unit dt t ru rel = .ok (.scalar (clip01 (r * ru * rel * ((p * lpu) / (s * lu))))) := by
   unfold birthsTimePar
-  have hfx : factorOf Gen.birthsTimeParFactor unit dt = .ok 1 := by
-    unfold factorOf
-    rw [if_pos (by decide)]
+  have hfx := C16_births_timepar_factor_is_one unit dt
   rw [timeparProb_rate_scalar h hv _ unit dt hfx]
   have := ne_of_gt (unitLen_pos h.lu); have := ne_of_gt (unitLen_pos h.lpu); have := h.p0; have := h.s0
   congr 3
@@ -129,9 +130,7 @@ theorem C16_deaths_asis_counterexample :
 theorem C16_ageing {u : String} {lu ly d : Rat} (hlu : unitLen u = some lu) (hly : unitLen "year" = some ly) (n : Nat)
     (hyear : (n : Rat) * (d * lu) = ly) :
     ∃ inc, ageIncrement (some u) (some d) = .ok inc ∧ (n : Rat) * inc = 1 := by
-  have h : ageIncrement (some u) (some d) = timeRatio (some u) (some d) (some "year") (some 1) := by
-    unfold ageIncrement factorOf
-    rw [if_neg (by decide), if_neg (by decide), if_pos (by decide)]
+  have h := C16_ageing_increment_is_dt_year (some u) (some d)
   refine ⟨_, by rw [h, timeRatio_known hlu hly one_ne_zero], ?_⟩
   have := ne_of_gt (unitLen_pos hly)
   field_simp
